@@ -87,12 +87,15 @@ class Monitor:
             ctx.count("skipped:outside domain (non-finite)")
             return True
         coords = [abs(v) for v in (*p1, *p2, *rect[0], *rect[1])]
-        if rect[0][0] > rect[1][0] or rect[0][1] > rect[1][1] or max(coords) > 10 ** 12:
+        if rect[0][0] > rect[1][0] or rect[0][1] > rect[1][1] or max(coords) > 10 ** 200:
             ctx.count("skipped:outside domain")
             return True
         ctx.count("monitor:clip_segment evaluated")
         iterations = self.code_calls // 2
         self.max_iterations = max(self.max_iterations, iterations)
+        if iterations >= 5:
+            # (only meaningful while the routine classifies its end points through clip_code)
+            ctx.tag("observed: five or more classification passes in one call (iteration failsafe territory)")
         scale = max(coords) or Fraction(1)
         tol = TOL_REL * scale
         witness = {"fn": "clip_segment", "segment": seg_in, "bounds": [list(bounds[0]), list(bounds[1])],
@@ -259,6 +262,53 @@ def gen_case(rng):
     return classes, [p1, p2], [list(lo), list(hi)]
 
 
+def gen_corner_graze(rng):
+    """A segment aimed through a corner of the rectangle (second end = first end mirrored through
+    the corner, scaled), with decimal / fractional coordinates: in floating point the clipped
+    vertex lands an ulp inside or outside and the routine alternates between the two boundaries of
+    that corner - about 1 in 2500 of these exhausts the routine's iteration budget."""
+    q = rng.choice((10, 100, 100, 1000, 7, 3, 64))
+    lo = [rng.randint(-2000, 2000) / q, rng.randint(-2000, 2000) / q]
+    hi = [lo[0] + rng.randint(1, 3000) / q, lo[1] + rng.randint(1, 3000) / q]
+    corner = (rng.choice((lo[0], hi[0])), rng.choice((lo[1], hi[1])))
+    p1 = [rng.randint(-6000, 6000) / q, rng.randint(-6000, 6000) / q]
+    k = rng.choice((1, 2, 0.5, 3, 0.25))
+    p2 = [corner[0] + (corner[0] - p1[0]) * k, corner[1] + (corner[1] - p1[1]) * k]
+    if rng.random() < 0.5:
+        p1, p2 = p2, p1
+    return ["rect:continuous", "line aimed through a corner (decimal coordinates)"], [p1, p2], [lo, hi]
+
+
+def hunt_unconverged(ctx, mon, rng, n):
+    """Float pre-oracle over many corner-grazing segments (the inputs that reach the routine's
+    iteration failsafe, ~1 in 10^4 of them): the unmonitored routine is called and only results
+    whose accepted end point lies clearly (1e-7 x scale) outside the rectangle are handed to the
+    exact monitor for the verdict.  On a correct tree it finds nothing; no threshold depends on it."""
+    from plotink import plot_utils
+    raw = getattr(plot_utils.clip_segment, "__verif_original__", plot_utils.clip_segment)
+    found = 0
+    for _ in range(n):
+        if found >= 400 or not ctx.alive():
+            break
+        classes, segment, bounds = gen_corner_graze(rng)
+        try:
+            accept, out = raw([list(segment[0]), list(segment[1])], bounds)
+        except Exception:
+            accept, out = True, [[float("inf")] * 2] * 2       # let the monitored call report it
+        if not accept:
+            continue
+        (ax, ay), (bx, by) = out
+        slack = 1e-7 * max(abs(bounds[0][0]), abs(bounds[0][1]), abs(bounds[1][0]), abs(bounds[1][1]), abs(ax), abs(ay), abs(bx), abs(by), 1e-300)
+        if bounds[0][0] - slack <= ax <= bounds[1][0] + slack and bounds[0][1] - slack <= ay <= bounds[1][1] + slack and \
+                bounds[0][0] - slack <= bx <= bounds[1][0] + slack and bounds[0][1] - slack <= by <= bounds[1][1] + slack:
+            continue
+        found += 1
+        ctx.case(classes + ["pre-screened: accepted end point clearly outside the rectangle (confirmed exactly below)"],
+                 (tuple(segment[0]), tuple(segment[1]), tuple(bounds[0]), tuple(bounds[1]), "hunt"))
+        one_case(ctx, mon, segment, bounds)
+    ctx.extra["unconverged_exits_found_by_prescreening"] = found
+
+
 def plot_utils_clip():
     from plotink import plot_utils
     return plot_utils.clip_segment
@@ -299,7 +349,7 @@ def run(ctx):
             from ..gen_stepper import failed_call
             failed_call(rng, plot_utils_clip(), 2)
             ctx.tag("history: after a failed call (malformed arguments)")
-        classes, segment, bounds = gen_case(rng)
+        classes, segment, bounds = gen_corner_graze(rng) if rng.random() < 0.3 else gen_case(rng)
         rect = ((F(bounds[0][0]), F(bounds[0][1])), (F(bounds[1][0]), F(bounds[1][1])))
         ra = region((F(segment[0][0]), F(segment[0][1])), rect)
         rb = region((F(segment[1][0]), F(segment[1][1])), rect)
@@ -333,6 +383,13 @@ def run(ctx):
                 ctx.case(["history: rectangle object re-used / changed in place", "history kind %d" % k],
                          ("h", tuple(seg_use[0]), tuple(seg_use[1]), tuple(shared[0]), tuple(shared[1]), step))
                 one_case(ctx, mon, seg_use, shared)
+    for _ in range(ctx.budget(40_000, 300_000)):
+        if not ctx.alive():
+            break
+        classes, segment, bounds = gen_corner_graze(rng)
+        ctx.case(classes, (tuple(segment[0]), tuple(segment[1]), tuple(bounds[0]), tuple(bounds[1])))
+        one_case(ctx, mon, segment, bounds)
+    hunt_unconverged(ctx, mon, rng, ctx.budget(400_000, 3_000_000))
     ctx.extra["max_loop_iterations_observed"] = [mon.max_iterations]
     pairs = 0
     for a in range(9):
@@ -349,6 +406,7 @@ def run(ctx):
     ctx.need("monitor:clip_segment evaluated", 20_000)
     ctx.need("history: after a failed call (malformed arguments)", 50)
     ctx.need("shape: segment given as tuples", 1000)
+    ctx.need("line aimed through a corner (decimal coordinates)", 5000)
     ctx.need("shape: rectangle given as tuples", 1000)
     contracts.uninstall_all()
 
